@@ -238,6 +238,53 @@ class Batch:
 
 
 # ---------------------------------------------------------------------------------------------
+# per-run isolation: every run executes in a child forked from a process that has imported pane but
+# never used it, so no state the code under test may keep anywhere (memo contents, per-class or
+# per-converter caches, "last lookup" fields, typing caches, gc generations) leaks from one run into
+# the next, and a run in a batch worker is the same computation as its replay in a fresh interpreter.
+
+def run_isolated(fn, *args, timeout=180):
+    import pickle
+    r, w = os.pipe()
+    sys.stdout.flush()
+    sys.stderr.flush()
+    pid = os.fork()
+    if pid == 0:
+        code = 0
+        try:
+            os.close(r)
+            # fork-safe watchdog (faulthandler's watchdog thread does not survive fork and re-arming it
+            # in the child deadlocks): SIGALRM's default action terminates the child
+            import signal
+            signal.signal(signal.SIGALRM, signal.SIG_DFL)
+            signal.alarm(int(timeout))
+            try:
+                res = ('ok', fn(*args))
+            except BaseException:  # noqa
+                res = ('err', traceback.format_exc())
+            try:
+                data = pickle.dumps(res)
+            except Exception:
+                data = pickle.dumps(('err', 'unpicklable result: ' + traceback.format_exc()))
+            with os.fdopen(w, 'wb') as f:
+                f.write(data)
+        except BaseException:  # noqa
+            code = 3
+        finally:
+            os._exit(code)
+    os.close(w)
+    with os.fdopen(r, 'rb') as f:
+        data = f.read()
+    _, status = os.waitpid(pid, 0)
+    if not data:
+        raise HarnessError(f"isolated run died or hung (> {timeout}s), wait status {status}")
+    kind, val = pickle.loads(data)
+    if kind == 'err':
+        raise HarnessError("exception inside an isolated run:\n" + val)
+    return val
+
+
+# ---------------------------------------------------------------------------------------------
 # evidence
 
 def write_evidence(prop: str, tier: str, seed: int, coverage: dict, assumptions, wall_s: float,
